@@ -64,5 +64,21 @@ func specs() map[string]propSpec {
 		},
 		Components: realStub,
 	}
+	m["C09"] = propSpec{
+		ID: "C09",
+		Jobs: []job{
+			{Label: "imports", Pkg: "./sim/engines/c09", Workers: [2]int{14, 16}, Checks: [2]int{0, 0}, Budget: [2]int{50, 900}},
+		},
+		Rule: "a record is a multi-file package (synthetic: 2-8 imports including distinct paths with equal base names and synthetic XGo packages, declared identifiers of every kind named like import base names - package-level and local variables, constants, types, functions, parameters, results, range and type-switch variables - ; or a real standard-library package) " +
+			"plus a front-end schedule (order of declarations, on-demand loading from another file's body, which file is current, imports issued at file start or first use, lazily loaded types, reassignment of declarations to files) and a fault plan (references built and then discarded by Pop or ResetStmt, aborted expression statements, inline closures that allocate helper names), under a tape-driven map order. " +
+			"Oracle on the written files, parsed and type-checked together with go/types: imports == used packages (+ force-imports as blank imports), import names pairwise distinct and different from every declared identifier, every package-qualified reference the front end built resolves to the package it was given, no generated helper name collides. " +
+			"Non-trivial: >= 20 operations and at least one renamed import; distinct = distinct (operation-history hash, fault plan).",
+		Assumptions: []string{
+			"type errors other than the import/name properties (unused variables etc.) are ignored: soundness of accepted builds is C01, not claimed",
+			"runs in which an aborted statement leaves an unparseable file are skipped and counted",
+			"sampling: a clean run is evidence for the histories reached, not a proof",
+		},
+		Components: realStub,
+	}
 	return m
 }
